@@ -14,7 +14,7 @@ ID = 'C12'
 LEVEL = 'model_checking'
 ENGINE = 'E1 mc.sched'
 TECHNIQUE = 'stateless model checking of the real config service / task handler / poller under a controlled scheduler: all interleavings up to a preemption bound x poll-response scripts x registration scripts, convergence oracle against a poll-server model'
-RULE = ('poll scripts: first poll answers UPDATE v1, polls 2..3 each in {same version, version advanced, call fails, unintelligible response}; '
+RULE = ('poll scripts: first poll answers UPDATE v1, polls 2..3 each in {same version, version advanced, call fails, unintelligible response, update that cannot be converted}; '
         'registration scripts: none / register / register+unregister / register twice; threads: poller, application, 2 pool workers; every '
         'schedule with <= bound preemptions at line granularity in config/tracepoint_config.py, task, poll, TriggerHandler.new_config; '
         'non-trivial = at least two update tasks were pending together or a poll failed')
@@ -22,7 +22,7 @@ ASSUMPTIONS = ['the service answers NO_CHANGE iff the reported hash equals its c
                'an unintelligible poll is a response object the client cannot read (the stub returns garbage); a single uninterpretable tracepoint is C11',
                'thread switches at source-line granularity in the listed modules and at every shim operation']
 
-POLL_ACTS = ['same', 'adv', 'fail', 'garbage']
+POLL_ACTS = ['same', 'adv', 'fail', 'garbage', 'unconvertible']
 REG_SCRIPTS = [[], ['reg'], ['reg', 'unreg'], ['reg', 'reg']]
 
 
@@ -94,6 +94,13 @@ def make_factory(desc):
                 raise ServiceDown('unavailable')
             if act == 'garbage':
                 return object()
+            if act == 'unconvertible':
+                # a well-formed message the client cannot turn into tracepoints (unknown metric type): the poll fails as a whole
+                from deepproto.proto.tracepoint.v1.tracepoint_pb2 import Metric
+                st['server_version'] += 1
+                v = st['server_version']
+                return PollResponse(ts_nanos=i + 1, current_hash='h%d' % v, response_type=ResponseType.UPDATE,
+                                    response=[PB(ID='svc-%d' % v, path='f.py', line_number=10 + v, args={}, metrics=[Metric(name='m', type=99)])])
             if req.current_hash == 'h%d' % v:
                 return PollResponse(ts_nanos=i + 1, current_hash='h%d' % v, response_type=ResponseType.NO_CHANGE)
             st['returned'].append(v)
@@ -184,7 +191,7 @@ def run_case(ctx, desc):
             want.add('svc-%d' % st['last_good'])
         hash_now = st['tps'].current_hash
         overl = max((len(s) for s in [st['th']._pending]), default=0)
-        if sched.preemptions() or any(a in ('fail', 'garbage') for a in polls):
+        if sched.preemptions() or any(a in ('fail', 'garbage', 'unconvertible') for a in polls):
             ctx.nt(tuple(choices) + tuple(polls) + tuple(desc['regs']))
         ctx.outcome((tuple(sorted(got)), hash_now))
         if len(st['seen_hashes']) != len(polls):
